@@ -31,6 +31,15 @@ Parts (DESIGN.md section 5, C18):
     type tag substitution of the base datagrams, all byte strings of length
     <= 2, each under a deterministic step budget; classification by
     mc/oracles/oscfault.py.
+(3b) transport loops     E1, mode 'rt': the library's own
+    OscUdpInterface._udp_run / OscTcpInterface._tcp_run (a private second
+    load of _oscinterface.py; seams replaced the module attribute) run
+    synchronously on a scripted socket: every sequence of <=3 datagrams /
+    frames of a menu (valid ones, unrecoverable ones, empty datagrams from
+    other peers; TCP: frames of size zero, frames that arrive in two pieces,
+    framing-destroying length prefixes) followed by a valid one and the
+    own-address sentinel / end of stream.  Every valid one must be delivered
+    once, in order; nothing may escape the loop; the loop ends only there.
 (4) registries           E2, mode 'rt': CmdPeriod/StartUp/ShutDown (add with
     positional and keyword arguments, remove, remove_all, run, do_once,
     hard_run, defer, an action that removes another one), ServerBoot/
@@ -1025,6 +1034,305 @@ def matrix_work(job):
         for kind, exp, o, detail in dis:
             acc.violation(kind, case, exp, o, detail)
         acc.case(case, nt, out, steps=len(out))
+    return acc.result()
+
+
+# =============================================================================
+# (3b) transport loops: the real OscUdpInterface._udp_run / OscTcpInterface
+# ._tcp_run on a scripted socket
+
+TR_PORT = 57140             # local port of the interface under test
+TR_BIND = [HOST, TR_PORT]
+TR_PEER = [HOST, 57110]     # the TCP peer
+
+
+def _tr_payloads():
+    m = osc10.encode_message
+    i = m('/a', [1])
+    b2 = osc10.encode_bundle(1, [m('/a', [2]), m('/ab', [3])])
+    import struct
+    neg = b2[:16] + struct.pack('>i', -4) + b2[20:]
+    blob = m('/a', [b'\x01\x02\x03\x04\x05'])
+    over = blob[:8] + struct.pack('>i', 64) + blob[12:]
+    return {'msg': i, 'bundle': b2, 'final': m('/ab', [9]),
+            'byte': b'\x00', 'cut': i[:11], 'negelem': neg, 'overblob': over,
+            'cutbundle': b2[:12], 'empty': b''}
+
+
+# UDP menu: [name, payload, peer]; the payload classes are asserted below
+UDP_MENU = [['msg', 'msg', A], ['bundle', 'bundle', B],
+            ['empty-from-peer', 'empty', A],
+            ['empty-from-other-host-same-port', 'empty', [H2, TR_PORT]],
+            ['byte', 'byte', A], ['cut', 'cut', A], ['negelem', 'negelem', B],
+            ['overblob', 'overblob', A], ['cutbundle', 'cutbundle', B]]
+# TCP menu: [name, payload | None, how]; how: whole | split-payload |
+# split-header (short reads: the frame arrives in two pieces) | zero (a frame
+# of size 0) | neglen / overlen (a size prefix that destroys the framing:
+# only as the last item, nothing can be demanded afterwards but a clean end)
+TCP_MENU = [['msg', 'msg', 'whole'], ['bundle', 'bundle', 'whole'],
+            ['msg-split-payload', 'msg', 'split-payload'],
+            ['msg-split-header', 'msg', 'split-header'],
+            ['byte', 'byte', 'whole'], ['cut', 'cut', 'whole'],
+            ['negelem', 'negelem', 'whole'], ['zero-size', None, 'zero']]
+TCP_LAST = [['final', 'final', 'whole'], ['negative-length', None, 'neglen'],
+            ['oversized-length', None, 'overlen']]
+
+
+def transport_cases():
+    out = []
+    n = len(UDP_MENU)
+    for k in range(0, 4):
+        for seq in itertools.product(range(n), repeat=k):
+            out.append({'part': 'transport', 'proto': 'udp',
+                        'seq': list(seq), 'last': 0})
+    n = len(TCP_MENU)
+    for k in range(0, 4):
+        for seq in itertools.product(range(n), repeat=k):
+            for last in range(len(TCP_LAST)):
+                if last and k > 2:
+                    continue
+                out.append({'part': 'transport', 'proto': 'tcp',
+                            'seq': list(seq), 'last': last})
+    return out
+
+
+def _real_transport_classes(env):
+    """The library's own OscUdpInterface / OscTcpInterface code (mc/seams.py
+    replaced the module attribute by a capture class): a second load of
+    sc3/base/_oscinterface.py as a private module whose OscInterface shares
+    the registry of receive functions with the library's."""
+    if 'real_osci' in env:
+        return env['real_osci']
+    import importlib.util
+    from mc import seams
+    osci = env['osci']
+    spec = importlib.util.spec_from_file_location(
+        'sc3.base._oscinterface_c18', osci.__file__)
+    mod = importlib.util.module_from_spec(spec)
+    spec.loader.exec_module(mod)
+    mod.threading = seams._VTModule
+    mod.OscInterface._recv_functions = osci.OscInterface._recv_functions
+    env['real_osci'] = mod
+    return mod
+
+
+class _FakeSocket:
+    """Scripted socket.  UDP: items [(bytes, (host, port))]; TCP: a list of
+    byte segments (recv never crosses a segment boundary: what has arrived
+    so far).  Before every read the pending dispatches run and virtual time
+    advances by DT."""
+
+    def __init__(self, S, items, sockname, peer=None):
+        self.S = S
+        self.items = list(items)
+        self.sockname = tuple(sockname)
+        self.peer = None if peer is None else tuple(peer)
+        self.times = []         # virtual instant of every read
+        self.past_end = 0
+        self.type = None
+
+    def _wait(self):
+        self.S.idle()
+        self.S.sleep(DT, exact=True)
+        self.times.append(self.S.now)
+
+    def getsockname(self):
+        return self.sockname
+
+    def getpeername(self):
+        return self.peer
+
+    def recvfrom(self, n):
+        self._wait()
+        if not self.items:
+            self.past_end += 1
+            raise OSError('scripted socket: read past the last datagram')
+        data, addr = self.items.pop(0)
+        return data[:n], tuple(addr)
+
+    def recv(self, n):
+        if n < 0:
+            raise ValueError('negative buffersize in recv')
+        if n == 0:
+            return b''
+        self._wait()
+        if not self.items:
+            self.past_end += 1
+            return b''          # end of stream
+        seg = self.items[0]
+        out, rest = seg[:n], seg[n:]
+        if rest:
+            self.items[0] = rest
+        else:
+            self.items.pop(0)
+        return out
+
+    def close(self):
+        pass
+
+
+def run_transport_case(case):
+    """-> (disagreements, outcome)"""
+    import struct
+    from mc import seams, vthreading as vt
+    env = _env()
+    mod = _real_transport_classes(env)
+    pay = _tr_payloads()
+    ex = seams.Execution()
+    S = vt.SCHED
+    OscFunc = env['rsp'].OscFunc
+    log = []
+    mine = []
+    dis = []
+    udp = case['proto'] == 'udp'
+
+    def cb(i):
+        def f(msg, time, addr, port):
+            log.append([i, _jsonable(msg), time,
+                        [getattr(addr, 'hostname', None),
+                         getattr(addr, 'port', None)], port])
+        return f
+    feats = set()
+    try:
+        mine.append(OscFunc(cb(0), '/a'))
+        mine.append(OscFunc(cb(1), '/ab'))
+        S.idle()
+        # ---- the script and what it must lead to
+        items = []
+        plan = []       # per datagram / frame: [payload | None, peer, reads]
+        if udp:
+            menu = [UDP_MENU[k] for k in case['seq']] + \
+                [['final', 'final', B]]
+            for name, p, peer in menu:
+                items.append((pay[p], peer))
+                plan.append([pay[p], peer, 1])
+                if p == 'empty':
+                    feats.add('empty')
+            items.append((b'', TR_BIND))        # what unbind() sends
+            iface = mod.OscUdpInterface(TR_PORT)
+        else:
+            menu = [TCP_MENU[k] for k in case['seq']] + \
+                [TCP_LAST[case['last']]]
+            for name, p, how in menu:
+                if how == 'zero':
+                    items.append(struct.pack('>i', 0))
+                    plan.append([None, TR_PEER, 1])
+                    feats.add('zero')
+                elif how == 'neglen':
+                    items.append(struct.pack('>i', -8) + pay['msg'])
+                    feats.add('neglen')
+                elif how == 'overlen':
+                    items.append(struct.pack('>i', 64) + pay['msg'][:8])
+                    feats.add('overlen')
+                else:
+                    fr = struct.pack('>i', len(pay[p])) + pay[p]
+                    if how == 'split-payload':
+                        items += [fr[:10], fr[10:]]
+                        plan.append([pay[p], TR_PEER, 3])
+                        feats.add('short')
+                    elif how == 'split-header':
+                        items += [fr[:2], fr[2:]]
+                        plan.append([pay[p], TR_PEER, 3])
+                        feats.add('short')
+                    else:
+                        items.append(fr)
+                        plan.append([pay[p], TR_PEER, 2])
+            iface = mod.OscTcpInterface(TR_PORT)
+        try:
+            iface._socket.close()       # the unbound socket of __init__
+        except Exception:
+            pass
+        sock = _FakeSocket(S, items, TR_BIND, None if udp else TR_PEER)
+        iface._socket = sock
+        del env['tap'].records[:]
+        raised = None
+        try:
+            if udp:
+                iface._udp_run()
+            else:
+                iface._tcp_run()
+            S.idle()
+        except (vt.Deadlock, vt.Livelock) as e:
+            raised = e
+        except BaseException as e:
+            if isinstance(e, (KeyboardInterrupt, SystemExit, vt.Abort)):
+                raise
+            raised = e
+        errors = [list(x)[:3] for x in env['tap'].records]
+        # (one label per script: the first of these that it contains)
+        feat = next((x for x in ('short', 'zero', 'neglen', 'overlen',
+                                 'empty') if x in feats), 'plain')
+        framing_lost = bool(feats & {'neglen', 'overlen'})
+        pre = f'transport-{case["proto"]}'
+        detail = (f'script {[m[0] for m in menu]}; reads at '
+                  f'{sock.times}; left unread: {len(sock.items)}; errors '
+                  f'logged by the library: {errors[:4]}')
+        if raised is not None:
+            dis.append((f'{pre}-loop-raises-{feat}', 'returns',
+                        f'{type(raised).__name__}: {raised}'[:120], detail))
+        if sock.items and not framing_lost:
+            # (after a length prefix that destroys the framing the receiver
+            # may stop wherever it likes)
+            dis.append((f'{pre}-loop-ended-early-{feat}', 0,
+                        len(sock.items), detail))
+        if udp and sock.past_end:
+            dis.append((f'{pre}-loop-ignores-own-sentinel-{feat}', 0,
+                        sock.past_end, detail))
+        # what must have been delivered: every valid payload, in order,
+        # at the instant of the read that completed it
+        exp = []
+        r = 0
+        for p, peer, reads in plan:
+            r += reads
+            if p is None:
+                continue
+            cl = oscfault.classify(p)
+            if cl['class'] == 'lenient':
+                raise core.HarnessError('transport menu: undecided payload')
+            if cl['class'] != 'valid':
+                continue
+            t = sock.times[r - 1] if r - 1 < len(sock.times) else None
+            for _, msg in cl['messages']:
+                rid = {'/a': 0, '/ab': 1}[msg[0]]
+                exp.append([rid, _jsonable(msg), t, [peer[0], peer[1]],
+                            TR_PORT])
+        obs = [list(e) for e in log]
+        strip = [e[:2] + e[3:] for e in obs]
+        want = [e[:2] + e[3:] for e in exp]
+        if strip != want:
+            if all(e in want for e in strip) and len(strip) < len(want):
+                kind = 'valid-lost'
+            else:
+                kind = 'wrong-delivery'
+            dis.append((f'{pre}-{kind}-{feat}', exp, obs, detail))
+        elif udp and obs != exp:
+            # a datagram carries the instant of the read that returned it
+            dis.append((f'{pre}-wrong-time-{feat}', exp, obs, detail))
+        elif not udp and ([e[2] for e in obs] != sorted(e[2] for e in obs) or
+                          any(e[2] not in sock.times for e in obs)):
+            # a stream: which read completes a frame is up to the receiver;
+            # the time must be one of the reception instants, in order
+            dis.append((f'{pre}-wrong-time-{feat}', sock.times,
+                        [e[2] for e in obs], detail))
+        return dis, [len(obs), len(sock.items), raised is None]
+    finally:
+        _restore_responders(env, mine)
+        for pr in ex.finish():
+            dis.append(('rt-teardown-problem', [], pr, ''))
+
+
+def transport_work(job):
+    acc = progenum.Acc(max_samples=2)
+    for k, case in enumerate(transport_cases()):
+        if k % job['of'] != job['shard']:
+            continue
+        dis, out = run_transport_case(case)
+        for kind, exp, o, detail in dis:
+            acc.violation(kind, case, exp, o, detail,
+                          size=len(case['seq']) * 100 + sum(case['seq']) +
+                          case['last'])
+        acc.case(case, nontrivial=len(case['seq']) > 0, outcome=out,
+                 steps=len(case['seq']) + 1)
     return acc.result()
 
 
@@ -2040,6 +2348,12 @@ def replay(job):
                 'deliveries': obs,
                 'disagreements': [[d[0], repr(d[1]), repr(d[2])]
                                   for d in dis]}
+    if part == 'transport':
+        dis, out = run_transport_case(case)
+        return {'violates': any(d[0] == job['kind'] for d in dis),
+                'outcome': out,
+                'disagreements': [[d[0], repr(d[1]), repr(d[2])]
+                                  for d in dis]}
     if part == 'matrix':
         dis, out, nt = run_matrix_case(case)
         return {'violates': any(d[0] == job['kind'] for d in dis),
@@ -2125,9 +2439,20 @@ def permanent_set_while_disabled(v):
     return bool(missing) and missing <= hit
 
 
+def tcp_frame_not_reassembled(v):
+    """TCP script with a frame of size zero, a frame that arrives in two
+    pieces (short read) or a negative length prefix"""
+    c = v['case']
+    if c.get('part') != 'transport' or c.get('proto') != 'tcp':
+        return False
+    hows = {TCP_MENU[k][2] for k in c['seq']} | {TCP_LAST[c['last']][2]}
+    return bool(hows & {'zero', 'split-payload', 'split-header', 'neglen'})
+
+
 PREDICATES = {f.__name__: f for f in (shared_function_object,
                                       removed_by_callback_exact,
-                                      permanent_set_while_disabled)}
+                                      permanent_set_while_disabled,
+                                      tcp_frame_not_reassembled)}
 
 
 # =============================================================================
@@ -2226,7 +2551,10 @@ def main(ctx):
         'against all addresses; non-trivial = well-formed and contains one of '
         '? * [ {. faults (E4): every single fault of the menu on each base '
         'datagram plus all short byte strings; non-trivial = a faulted '
-        'datagram of more than 2 bytes. filter matrix (E1): one evaluation '
+        'datagram of more than 2 bytes. transport loops (E1): one '
+        'evaluation = one script of datagrams / TCP frames fed to the real '
+        'receive loop; non-trivial = at least one item before the final '
+        'valid one. filter matrix (E1): one evaluation '
         '= one responder configuration against all messages of the product; '
         'non-trivial = the reference demands that it fires for some message '
         'and that one of its filters rejects another message on its path.')
@@ -2257,6 +2585,12 @@ def main(ctx):
         'ambiguous pattern texts and lenient datagram faults (see the '
         'oracle docstrings) are don\'t-cares apart from: no exception, no '
         'hang, next datagram still delivered',
+        'transport loops: scripted socket objects (recvfrom pops datagrams; '
+        'recv returns what has arrived, never across a segment boundary, '
+        'b"" at end of stream, ValueError for a negative size as CPython '
+        'does); a TCP message carries one of the reception instants (which '
+        'read completes a frame is up to the receiver); after a length '
+        'prefix that destroys the framing only a clean end is demanded',
         f'step budget {BUDGET} sys.monitoring events per datagram '
         '(PY_START, PY_RESUME, JUMP, BRANCH)']
     of = 64
@@ -2295,6 +2629,15 @@ def main(ctx):
                        ('1 (+ 1/8 slice of length 2)' if quick else '2'))
     ms = ctx.extra.pop('max_steps_within_budget', [])
     ctx.extra['max_steps_within_budget'] = max(ms) if ms else 0
+    progenum.run(ctx, MODNAME, 'transport_work',
+                 [{'shard': i, 'of': of} for i in range(of)], mode='rt',
+                 bound='transport loops: the real _udp_run / _tcp_run on a '
+                       'scripted socket, every sequence of <=3 datagrams '
+                       f'over a menu of {len(UDP_MENU)} (UDP) / '
+                       f'{len(TCP_MENU)} frames (TCP) followed by a valid '
+                       'one and the own-address sentinel / end of stream '
+                       '(TCP also: a framing-destroying length prefix last, '
+                       f'<=2 before it): {len(transport_cases())} scripts')
     t0 = _timed(ctx, 'faults', t0)
     # (1) responder histories
     for name in sorted(RESP_PARAMS):
